@@ -31,6 +31,9 @@ pub enum Decoration {
     /// special names, doc strings and tables on the steps, Log events in the
     /// stream, a World on every failure, verbosity 2
     Rich,
+    /// every feature carries the same name; the first one has no path and the
+    /// others have one (`path == true`) or the other way round
+    DupFeatures,
 }
 
 #[derive(Clone, Copy, Debug)]
@@ -53,7 +56,8 @@ pub fn decorated_sources(cfg: &Config, o: &Opts) -> Sources {
     let mut key_feats = Vec::new();
     for (i, f) in feats.iter_mut().enumerate() {
         key_feats.push(f.name.clone());
-        if o.path {
+        let has_path = if o.deco == Decoration::DupFeatures { (i == 0) != o.path } else { o.path };
+        if has_path {
             f.path = Some(PathBuf::from(format!("feat/f{i} é.feature")));
         }
     }
@@ -68,6 +72,7 @@ pub fn decorated_sources(cfg: &Config, o: &Opts) -> Sources {
     let deco_name = |name: &str, is_scen: bool| -> String {
         match o.deco {
             Decoration::Plain => name.to_owned(),
+            Decoration::DupFeatures => name.to_owned(),
             Decoration::Special | Decoration::Rich => special(name),
             Decoration::SameNames => {
                 if is_scen {
@@ -93,7 +98,7 @@ pub fn decorated_sources(cfg: &Config, o: &Opts) -> Sources {
     };
     for mut f in feats {
         let key = f.name.clone();
-        f.name = deco_name(&key, false);
+        f.name = if o.deco == Decoration::DupFeatures { "Dup".to_owned() } else { deco_name(&key, false) };
         if let Some(bg) = f.background.as_mut() {
             for st in &mut bg.steps {
                 let k = st.value.clone();
@@ -285,7 +290,13 @@ pub fn render(src: &Sources, stream: &[Ev], o: &Opts) -> Result<Outputs, String>
 pub fn opt_sets(thorough: bool) -> Vec<Opts> {
     let mut v = Vec::new();
     for path in [true, false] {
-        for deco in [Decoration::Plain, Decoration::Special, Decoration::SameNames, Decoration::Rich] {
+        for deco in [
+            Decoration::Plain,
+            Decoration::Special,
+            Decoration::SameNames,
+            Decoration::Rich,
+            Decoration::DupFeatures,
+        ] {
             if deco == Decoration::Rich {
                 v.push(Opts { path, deco, libtest_show_output: true, libtest_report_time: false, verbosity: 2 });
                 continue;
@@ -319,6 +330,18 @@ pub fn cases(thorough: bool) -> Vec<Case> {
             thorough || (c.u.is_none() && h % 2 == 0) || h % 24 == 0
         })
         .map(|(_, c)| c)
+        .collect::<Vec<_>>()
+        .into_iter()
+        .flat_map(|c| {
+            // the second scenario in a feature of its own as well
+            let other = match &c.u {
+                Some((u, h_sum::Placement::SameAfter)) => {
+                    Some(Case { u: Some((u.clone(), h_sum::Placement::OtherFeature)), ..c.clone() })
+                }
+                _ => None,
+            };
+            std::iter::once(c).chain(other)
+        })
         .collect()
 }
 
@@ -400,6 +423,11 @@ pub fn run(a: &ShardArgs) -> serde_json::Value {
             if o.deco == Decoration::SameNames && case.u.is_none() {
                 continue;
             }
+            if o.deco == Decoration::DupFeatures
+                && !matches!(case.u, Some((_, h_sum::Placement::OtherFeature)))
+            {
+                continue;
+            }
             let src = decorated_sources(&cfg, o);
             evaluations += 1;
             let fx = facts(&src, &stream);
@@ -447,7 +475,7 @@ pub fn run(a: &ShardArgs) -> serde_json::Value {
         "property": "C14", "tier": a.tier,
         "total_configs": cs.len() * osets.len(), "configs_done": evaluations, "configs_skipped_budget": skipped,
         "evaluations": evaluations, "distinct_nontrivial": nontrivial.len(),
-        "rule": "streams of the C12 grammar (quick: every 2nd single-scenario and every 24th two-scenario case) x {with path, path-less} x {plain, quotes/markup/non-ASCII names, same-named scenarios} x reporter options (libtest show_output / report_time, verbosity 0/1) through Normalize<Basic|Libtest|Json|JUnit> into memory sinks; outputs parsed back by tools/parse_reports.py (json, xml.etree, line parser); non-trivial = distinct (stream, options) with a non-passed fact",
+        "rule": "streams of the C12 grammar (quick: every 2nd single-scenario and every 24th two-scenario case) x {with path, path-less} x {plain, quotes/markup/non-ASCII names, same-named scenarios, rich (doc strings, tables, logs, World), same-named features of which one is path-less} x reporter options (libtest show_output / report_time, verbosity 0/1) through Normalize<Basic|Libtest|Json|JUnit> into memory sinks; outputs parsed back by tools/parse_reports.py (json, xml.etree, line parser); non-trivial = distinct (stream, options) with a non-passed fact",
         "exhaustive": skipped == 0,
         "details": {"records_parsed_back": parsed_ok},
         "violations": violations, "samples": samples,
